@@ -347,13 +347,35 @@ def work(case):
     from psyclone.psyad.tl2ad import generate_adjoint_str
     key = {"unit": "generate_adjoint_str", "template": case["template"], "params": case["params"]}
     try:
-        ad_src, _ = generate_adjoint_str(case["src"], case["active"])
+        psyad_in = case["src"]
+        if case.get("assumed"):
+            # PSyAD is given the same kernel with assumed-shape dummies; the explicit extent is put back into the
+            # adjoint afterwards (the kernel is conforming for extent n, so both declarations mean the same)
+            import re as _re
+            psyad_in = _re.sub(r"\b([abc])\(n\)", r"\1(:)", psyad_in)
+        ad_src, _ = generate_adjoint_str(psyad_in, case["active"])
+        if case.get("assumed"):
+            ad_src = _re.sub(r"dimension\(:\)", "dimension(n)", ad_src, flags=_re.I)
     except Exception as e:  # pylint: disable=broad-except
         name = type(e).__name__
         if name in ("TangentLinearError", "NotImplementedError", "TransformationError"):
             return [{"key": key, "status": "refused", "why": f"{name}: {e}"[:200]}]
         return [{"key": key, "status": "psyclone_error", "why": f"{name}: {e}"[:300]}]
-    return [decide(case, case["src"], ad_src, key)]
+    src = case["src"]
+    if case.get("imported"):
+        src, ad_src = localise(src), localise(ad_src)
+    return [decide(case, src, ad_src, key)]
+
+
+def localise(text):
+    """the imported passive coefficient `kk` becomes an extra intent(in) dummy, in the tangent-linear and the
+    adjoint text alike (fsym and the gfortran driver need it declared)"""
+    import re
+    text = re.sub(r"^[ \t]*use consts_mod, only\s*:\s*kk[ \t]*\n", "", text, flags=re.I | re.M)
+
+    def sub(m):
+        return (f"{m.group(1)}subroutine {m.group(2)}({m.group(3)}, kk)\n{m.group(1)}  real(kind=r_def), intent(in) :: kk\n")
+    return re.sub(r"^([ \t]*)subroutine (\w+)\(([^)]*)\)[ \t]*\n", sub, text, flags=re.I | re.M)
 
 
 def main():
